@@ -149,8 +149,9 @@ class Signal(np.lib.mixins.NDArrayOperatorsMixin):
     def __len__(self):
         return len(self.data)
 
-    def __array__(self):
-        return np.asanyarray(self.data)
+    def __array__(self, dtype=None, copy=None):
+        x = np.asanyarray(self.data, dtype=dtype)
+        return x.copy() if copy else x
 
     def _time_slice(self, index):
         s = slice(*index.indices(self.shape[0]))
